@@ -2,33 +2,39 @@
 
 Oracle: specs/MediaInherit.tla (layer A, written from the property text and the docs):
 Files(c, t) = own declared files + transitively those of the bases selected by the class's
-own Media.extend; each file once; order = a linear extension of every contributing declared
-list whenever those lists are acyclic; template/js/css by the pair rule along the C3 MRO
-(transcribed); both members of a pair in one class -> rejected; memo machine with Access
-actions and the invariants OrderIndependent / MemoSound / MemoClosed.
+own Media.extend (no own Media: the default, all bases); each file once per type (js, css/all,
+css/print); order = a linear extension of every contributing declared list whenever those
+lists are acyclic; template/js/css (and the _file forms) by the pair rule along the C3 MRO
+(transcribed, cross-checked against Python's __mro__); both members of a pair in one class ->
+rejected; a memo machine with Access actions and the invariants OrderIndependent / MemoSound /
+MemoClosed, model-checked by TLC (MC_C16) over every hierarchy of a catalogue and every order.
 
-spec -> code: TLC (MC_C16) builds every hierarchy of <= N classes from catalogues of own
-              Media contents / extend forms / asset kinds and exports each one with what
-              MediaInherit expects; the harness builds the classes with type() in a fresh
-              module per run (the memo table is process-global, so every run starts cold),
-              drives systematic first-access orders (permutations of the classes, on classes
-              and instances, media before/after template/js/css) and compares every access.
+spec -> code: TLC (MC_C16) builds every hierarchy of <= 3 (4) classes from catalogues of own
+              Media contents / extend forms / asset kinds / component-relative files and exports
+              each one with what MediaInherit expects; the harness builds the classes with type()
+              in a fresh module per run (the library's memo table is process-global, so every run
+              starts cold), drives permutations of the first accesses (classes and instances;
+              media before / after / between template, js, css) and compares every access.
 code -> spec: seeded random deeper hierarchies (<= 6 classes, <= 3 bases, longer lists,
-              component-relative files, str/list/tuple/dict/bytes/Path/callable forms) with
-              random access histories are recorded and validated by TLC (Trace_C16) against
-              the same MediaInherit operators.
+              relative files, str/list/tuple/dict/bytes/Path/callable forms, template_name) with
+              random access histories are recorded and validated by TLC (Trace_C16) against the
+              same MediaInherit operators.  Runs of the first direction that contradict the
+              exported expectation are judged by Trace_C16 as well (two forms of one oracle; a
+              disagreement between them is a machinery error).
 
-Known deviations of the code are NAMED in specs/MediaInheritImpl.tla (layer B, a transcription
-of _get_comp_cls_media incl. Django's Media.merge).  An observation that MediaInherit rejects
-is a known finding only if TLC shows that a set of named deviations predicts exactly the
-observed value; the finding key is the name of the deviation (shape + predicted outcome).
-Anything else is a VIOLATION.
+Known deviations of the code are NAMED in specs/MediaInheritImpl.tla (layer B: a transcription
+of _get_comp_cls_media / _resolve_media incl. Django's Media.merge, switchable per deviation).
+A run that MediaInherit rejects is a known finding only if TLC shows that a set of named
+deviations predicts every media observation of that run exactly; the finding keys are the names
+of those deviations (shape of the case : outcome the deviation predicts).  With the proposed
+repairs applied the deviations predict nothing that differs, so no key is produced (checked in
+--selftest).  Anything else is a VIOLATION.
 
 Not determined by the property, therefore not asserted: the relative order of files that no
 declared list relates, the order when the declared lists are cyclic (Django warns; compared
 as sets), which classes end up memoised.  Hierarchies Python itself rejects (no C3 order) are
 only used to cross-check the MRO transcription (a disagreement there is a machinery error).
-SafeString entries, custom media_class and non-Component mixins are not generated.
+SafeString entries, custom media_class and non-Component mixin bases are not generated.
 """
 from __future__ import annotations
 
@@ -552,6 +558,9 @@ def model_check_machine(quick: bool) -> Dict[str, Any]:
         # three classes (multiple inheritance, extend lists), media only
         "machine3": dict(maxn=3, maxacc=2, lists="ListsTiny" if quick else "ListsQuick", accattrs="AccMedia",
                          accvias="ViasCls", trim=quick, extra=inv + "INVARIANT FlattenOnlyOnShape\n"),
+        # relative files, media and js in every order: the repaired model conforms
+        "machine_rel": dict(maxn=2, maxacc=2 if quick else 3, lists="ListsRel", rel="Rel1", attrs="AttrsFew",
+                            exts="ExtsTF", accattrs="AccMediaJs", accvias="ViasCls", extra=inv),
         "dev_inherit": dict(maxn=3, maxacc=1, lists="ListsTiny", accattrs="AccMedia", accvias="ViasCls",
                             impld="DevInherit", extra="INVARIANT ImplRefines\n"),
         "dev_flatten": dict(maxn=3, maxacc=1, lists="ListsQuick", accattrs="AccMedia", accvias="ViasCls",
